@@ -105,7 +105,8 @@ def main():
                 sub.note_machine(m)
                 spec = spec_verify(toy, pk16, msg, r16, s16) if SL == 64 else False
                 ctx.check(tm.eq(res, spec, 0), 'bv:Verify-accepts-iff-BIP340-Verify')
-                return bool(res) if not isinstance(res, tm.T) else None
+                # a result the code left symbolic (e.g. `return a == 0 && bytes.Equal(..)`) is split so that the witness below is semantic
+                return ctx.branch(res) if isinstance(res, tm.T) else bool(res)
             paths = sub.explore('toy(%d,%d)/Verify@msglen%d@siglen%d' % (toy.p, toy.n, ML, SL), h, mode='bv', timeout=300)
             if SL == 64:
                 sub.add('toy(%d,%d)/Verify@msglen%d/witness' % (toy.p, toy.n, ML), [], {p.value for p in paths} >= {True, False})
@@ -136,14 +137,14 @@ def main():
             sv = tm.lift(cat_bytes(sig[32:]), 256)
             spec = tm.band(tm.ult(r, P_FIELD, 256), tm.ult(sv, N_ORDER, 256))
             ctx.check(tm.eq(ok, spec, 0), 'bv:parse-ok-iff-r<p-and-s<n')
-            if ok is True or (isinstance(ok, tm.T)):
-                pass
-            if not isinstance(ok, tm.T) and ok:
+            if isinstance(ok, tm.T):
+                ok = ctx.branch(ok)
+            if ok:
                 ctx.check(tm.eq(tm.lift(cat_limbs(list(m.load(s)[1])), 256), sv, 256), 'bv:s-value')
                 E = tm.lift(cat_bytes(tagged('BIP0340/challenge', [sig[:32], pk, msg])), 256)
                 red = tm.ite(tm.ule(N_ORDER, E, 256), tm.bv('sub', E, N_ORDER, 256), E, 256)
                 ctx.check(tm.eq(tm.lift(cat_limbs(list(m.load(e)[1])), 256), red, 256), 'bv:e=int(tagged-hash(r||pk||m))-mod-n')
-            return ok if not isinstance(ok, tm.T) else None
+            return bool(ok)
         paths = sub.explore('exact/parseSchnorrSignature', h, mode='bv')
         sub.add('exact/parseSchnorrSignature/witness', [], {p.value for p in paths} >= {True, False})
     if not only or 'parse' in only:
